@@ -139,6 +139,10 @@ EXTRA2 = {'C01': 'Every class of lone surrogate (first/last high, first low, bot
 for pid, extra in EXTRA2.items():
     CHECKS[pid]["text"] = CHECKS[pid]["text"].rstrip() + (" " if pid in EXTRA else " Also: ") + extra
 
+EXTRA3 = {'C02': 'Two programs preempted at every statement of the serializer / unserializer (nothing may leak between concurrent sends).', 'C03': 'A close() that fails (unserialisable error object) must leave the channel consistently open or closed; a later plain close() ends the conversation for the peer.', 'C05': 'Thread-start faults during makegateway and a child that is not a Python interpreter (failed bootstrap leaves no process); the via-gateway itself dead / stopped (two known findings).', 'C06': "Non-ASCII output under PYTHONIOENCODING=ascii and the C locale; remote code, a thread and a child process reading the worker's standard input.", 'C07': 'Remote bodies raising BaseException-only classes (custom, GeneratorExit).', 'C08': 'Real popen / python= / via cells in which a thread or child process of the worker reads its standard input while frames of every size class (0 .. 300 kB, 4 MiB thorough) are echoed.', 'C09': "Environment fault 'the interpreter refuses to start a thread' (one fault per execution): a refused task never runs and waitall stays truthful.", 'C10': "Ending 'the remote body raises EOFError'.", 'C11': "'Flood' activities: 100 .. 1500 (5000 thorough) items piled up on a channel of a sleeping / busy / interrupt-swallowing body (virtual queues honour maxsize).", 'C12': "Ints beyond the interpreter's digit limit: dumps may refuse them, but whatever it emits must be decimal text.", 'C13': 'Nesting-depth classes 1 .. 200000 (1000000 thorough) for tuples / lists / frozensets as values, set members and dict keys, run in a child process so that an interpreter crash is an observation.', 'C14': "The worker's start-up (serve) explored against the first remote_exec.", 'C15': 'via= without python= through a forwarder that has no execnet.', 'C16': '1 MiB + 1 echo cells on real processes.'}
+for pid, extra in EXTRA3.items():
+    CHECKS[pid]["text"] = CHECKS[pid]["text"].rstrip() + " " + extra
+
 checks = []
 for pid, c in CHECKS.items():
     checks.append({
